@@ -178,11 +178,21 @@ fn run_w(t: &[&str]) -> String {
             let cap = unsafe { brotli::ffi::compressor::BrotliEncoderMaxCompressedSize(data.len()) } + 1024;
             let mut buf = vec![0u8; cap];
             let mut sz = cap;
+            use brotli::ffi::compressor::BrotliEncoderMode as M;
+            let mode = match plist.iter().find(|x| x.0 == 0).map(|x| x.1).unwrap_or(0) {
+                1 => M::BROTLI_MODE_TEXT,
+                2 => M::BROTLI_MODE_FONT,
+                3 => M::BROTLI_MODE_FORCE_LSB_PRIOR,
+                4 => M::BROTLI_MODE_FORCE_MSB_PRIOR,
+                5 => M::BROTLI_MODE_FORCE_UTF8_PRIOR,
+                6 => M::BROTLI_MODE_FORCE_SIGNED_PRIOR,
+                _ => M::BROTLI_MODE_GENERIC,
+            };
             let r = unsafe {
                 brotli::ffi::compressor::BrotliEncoderCompress(
                     q,
                     w,
-                    brotli::ffi::compressor::BrotliEncoderMode::BROTLI_MODE_GENERIC,
+                    mode,
                     data.len(),
                     data.as_ptr(),
                     &mut sz,
